@@ -401,7 +401,7 @@ func (c *Ctx) paginated() *paginatedRoles {
 		for _, b := range f.Blocks {
 			for _, in := range b.Instrs {
 				if call, ok := in.(*ssa.Call); ok {
-					if fn, ok := call.Common().Value.(*ssa.Function); ok && fn.String() == "sort.Ints" {
+					if fn, ok := call.Common().Value.(*ssa.Function); ok && libName(fn) == "sort.Ints" {
 						t := tc.Of(call.Common().Args[0])
 						if t.Op == "field" && t.Args[0].isParam(0) {
 							sorts = append(sorts, f)
@@ -756,7 +756,7 @@ func (r *paginatedRoles) isSortCall(tc *TermCtx, call *ssa.Call) bool {
 	if r.sort != nil && fn == r.sort {
 		return true
 	}
-	if fn.String() == "sort.Ints" {
+	if libName(fn) == "sort.Ints" {
 		t := tc.Of(call.Common().Args[0])
 		return t.Op == "field" && t.Sym == r.bufFld && (t.Args[0].isParam(0) || t.Args[0].isRecv())
 	}
